@@ -23,6 +23,19 @@
 #![allow(clippy::all, dead_code)]
 
 use super::*;
+// explicit imports: do not rely on what the parent module happens to import
+#[allow(unused_imports)]
+use std::sync::Arc;
+#[allow(unused_imports)]
+use std::sync::Mutex;
+#[allow(unused_imports)]
+use std::sync::RwLock;
+#[allow(unused_imports)]
+use std::collections::HashMap;
+#[allow(unused_imports)]
+use std::net::IpAddr;
+#[allow(unused_imports)]
+use tokio::sync::mpsc;
 use crate::daemon::config::NormalizedAddress;
 use crate::daemon::spawn::{NtpSourceCreateParameters, SockSourceCreateParameters, SourceRemovedEvent};
 use ntp_proto::{
